@@ -37,7 +37,9 @@ def trace(chk, leak, nm, prim, secret_hex, public_hex, tag, limit):
     p = subprocess.run(cmd, capture_output=True, text=True, env=env, timeout=900)
     if p.returncode != 0:
         raise core.Infra("valgrind run failed for %s: %s" % (prim, (p.stdout + p.stderr)[-500:]))
-    q = subprocess.run([chk.drv(), "leakfilter", nm, log, str(limit)], capture_output=True, text=True, timeout=900)
+    wide = prim not in ("signhashed", "ptbytes")
+    q = subprocess.run([chk.drv(), "leakfilter", nm, log, str(limit)], capture_output=True, text=True, timeout=900,
+                       env=dict(os.environ, LEAK_SCOPE_WIDE="1" if wide else "0"))
     os.unlink(log)
     if q.returncode != 0:
         raise core.Infra("leakfilter failed for %s: %s" % (prim, q.stderr[-500:]))
